@@ -117,7 +117,30 @@ class PyInterp(Interp):
         else:
             raise AnalysisError(f"{f.key}: cannot bind `{src(target)}`")
 
+    def _apply_callable(self, fn, args: list):
+        if isinstance(fn, tuple) and fn and fn[0] == "closure":
+            _, node, cenv = fn
+            params = [a.arg for a in node.args.args]
+            if len(params) != len(args) or node.args.vararg or node.args.kwonlyargs:
+                raise AnalysisError("evaluator: lambda signature outside the fragment")
+            inner = dict(cenv)
+            inner.update(zip(params, args))
+            return self.eval(node.body, inner)
+        if isinstance(fn, tuple) and fn and fn[0] == "bound-method":
+            return self.call_function(fn[2], fn[1], args, {})
+        raise AnalysisError(f"evaluator: cannot call {fn!r}")
+
+    def _sort_key(self, keyfn, reverse, items: list, where: str) -> list:
+        try:
+            keyed = [(self._apply_callable(keyfn, [x]) if keyfn is not None else x, i, x) for i, x in enumerate(items)]
+            keyed.sort(key=lambda t: t[0], reverse=bool(reverse))
+        except TypeError as e:
+            raise Crash(f"`{where}`: {e}")
+        return [x for _k, _i, x in keyed]
+
     def eval(self, n: ast.expr, env: dict):
+        if isinstance(n, ast.Lambda):
+            return ("closure", n, env)
         if isinstance(n, ast.Name) and n.id not in env and n.id not in ("True", "False", "None"):
             return self._global(n.id)
         if isinstance(n, ast.List):
@@ -202,7 +225,7 @@ class PyInterp(Interp):
                 return list(v) if f.id == "list" else tuple(v)
         if isinstance(f, ast.Name) and f.id == "len" and len(n.args) == 1:
             v = self.eval(n.args[0], env)
-            if isinstance(v, (list, tuple, frozenset)):
+            if isinstance(v, (list, tuple, frozenset, set, range)):
                 return len(v)
         if isinstance(f, ast.Name) and f.id == "isinstance" and len(n.args) == 2:
             v = self.eval(n.args[0], env)
@@ -214,8 +237,20 @@ class PyInterp(Interp):
             return False
         if isinstance(f, ast.Name) and f.id == "cast" and len(n.args) == 2:
             return self.eval(n.args[1], env)
+        if isinstance(f, ast.Name) and f.id == "sorted" and len(n.args) == 1 and n.keywords:
+            v = self.eval(n.args[0], env)
+            kws = {k.arg: self.eval(k.value, env) for k in n.keywords if k.arg}
+            if isinstance(v, (list, tuple, set, frozenset)) and set(kws) <= {"key", "reverse"}:
+                return self._sort_key(kws.get("key"), kws.get("reverse", False), list(v), src(n)[:50])
+        if isinstance(f, ast.Name) and f.id in env and isinstance(env[f.id], tuple) and env[f.id] and env[f.id][0] == "closure":
+            return self._apply_callable(env[f.id], [self.eval(a, env) for a in n.args])
         if isinstance(f, ast.Attribute):
             o = self.eval(f.value, env)
+            if isinstance(o, list) and f.attr == "sort" and not n.args:
+                kws = {k.arg: self.eval(k.value, env) for k in n.keywords if k.arg}
+                if set(kws) <= {"key", "reverse"}:
+                    o[:] = self._sort_key(kws.get("key"), kws.get("reverse", False), list(o), src(n)[:50])
+                    return None
             if isinstance(o, list) and f.attr in ("append", "extend", "insert"):
                 args = [self.eval(a, env) for a in n.args]
                 if f.attr == "append":
@@ -263,8 +298,19 @@ def _universe(ctx: Ctx):
     inc = m.find_class("ColumnInContainer")
     T, F = Obj(lit, value=True), Obj(lit, value=False)
     p, q = Obj(ref, tag="p"), Obj(ref, tag="q")
-    opaque_f = Obj(fn, name="f", args=(), supporting_engine_types=None)
-    opaque_c = Obj(inc, item=None, container=None)
+    # the opaque atoms are well-formed nodes (a function of column f, membership of column c in a range) so that
+    # anything the folding code asks of them (required columns, engine support) can be answered
+    cref = m.find_class("ColumnReference")
+    crange = m.find_class("ColumnRangeLiteral")
+    opaque_f = Obj(fn, name="f", args=(Obj(cref, tag="f", dtype=None),), supporting_engine_types=None)
+    opaque_c = Obj(inc, item=Obj(cref, tag="c", dtype=None), container=Obj(crange, value=("range", 0, 3, 1), dtype=None))
+    # membership tests between literals have a definite value (by *value*: 4 is in [4, 5] whatever dtype the literals declare)
+    clit = m.find_class("ColumnLiteral")
+    cseq = m.find_class("ColumnExpressionSequence")
+    lit4, lit4i, lit5, lit3 = Obj(clit, value=4, dtype=None), Obj(clit, value=4, dtype="int"), Obj(clit, value=5, dtype=None), Obj(clit, value=3, dtype=None)
+    in_true = Obj(inc, item=lit4, container=Obj(cseq, items=(lit4i, lit5), dtype=None))
+    in_true_same = Obj(inc, item=lit4, container=Obj(cseq, items=(lit5, lit4), dtype=None))
+    in_false = Obj(inc, item=lit3, container=Obj(cseq, items=(lit4, lit5), dtype=None))
     core = [T, F, p, q]
     d1 = list(core)
     for x in core:
@@ -275,7 +321,11 @@ def _universe(ctx: Ctx):
             d1.append(Obj(cls, operands=(x,)))
         for x, y in itertools.product(core, repeat=2):
             d1.append(Obj(cls, operands=(x, y)))
-    trees = list(d1) + [opaque_f, opaque_c]
+    trees = list(d1) + [opaque_f, opaque_c, in_true, in_true_same, in_false]
+    for x in (in_true, in_true_same, in_false):
+        trees.append(Obj(lnot, operand=x))
+        trees.append(Obj(land, operands=(x, p)))
+        trees.append(Obj(lor, operands=(x, p)))
     for x in d1:
         trees.append(Obj(lnot, operand=x))
     for cls in (land, lor):
@@ -302,7 +352,8 @@ def _value(t: Obj, asg: dict[str, bool]) -> bool:
     if name == "PredicateFunction":
         return asg["f"]
     if name == "ColumnInContainer":
-        return asg["c"]
+        lv = _literal_membership(t)
+        return asg["c"] if lv is None else lv
     if name == "LogicalNot":
         return not _value(t.attrs["operand"], asg)
     if name == "LogicalAnd":
@@ -310,6 +361,16 @@ def _value(t: Obj, asg: dict[str, bool]) -> bool:
     if name == "LogicalOr":
         return any(_value(x, asg) for x in t.attrs["operands"])
     raise AnalysisError(f"fold evaluator: a {name} node was produced, which the reference evaluator does not know")
+
+
+def _literal_membership(t: Obj) -> bool | None:
+    """The value of `<literal> in [<literals>]`, None when it is not a test between literals."""
+    item, cont = t.attrs.get("item"), t.attrs.get("container")
+    if isinstance(item, Obj) and item.cls.name == "ColumnLiteral" and isinstance(cont, Obj) and cont.cls.name == "ColumnExpressionSequence":
+        items = cont.attrs.get("items", ())
+        if all(isinstance(x, Obj) and x.cls.name == "ColumnLiteral" for x in items):
+            return any(x.attrs["value"] == item.attrs["value"] for x in items)
+    return None
 
 
 def _show(t) -> str:
@@ -323,6 +384,8 @@ def _show(t) -> str:
     if name == "PredicateFunction":
         return "f(..)"
     if name == "ColumnInContainer":
+        if _literal_membership(t) is not None:
+            return f"{t.attrs['item'].attrs['value']} in [" + ", ".join(str(x.attrs["value"]) + (":" + str(x.attrs["dtype"]) if x.attrs.get("dtype") else "") for x in t.attrs["container"].attrs["items"]) + "]"
         return "x in C"
     if name == "LogicalNot":
         return f"not ({_show(t.attrs['operand'])})"
@@ -372,13 +435,15 @@ def _decide(ctx: Ctx):
     flat = m.resolve_function(pmod, "flatten_logical_and")
     if flat is None:
         raise AnalysisError("flatten_logical_and is missing")
+    from .mergeeval import MergeInterp as _Interp  # dataclass equality, classes as values, *args
+
     bad_fold = bad_flat = None
     n_fold = n_flat = 0
     module_state: dict = {}
     for t in trees:
         values = [_value(t, a) for a in _ASSIGNMENTS]
         # ---- as_trivial
-        interp = PyInterp(ctx, Oracle([]), pmod, module_state)
+        interp = _Interp(ctx, Oracle([]), pmod, module_state)
         try:
             meth = m.method(t.cls, "as_trivial")
             got = interp.call_function(meth, t, [], {})
@@ -396,7 +461,7 @@ def _decide(ctx: Ctx):
         # ---- flatten_logical_and
         if bad_flat is not None:
             continue
-        interp = PyInterp(ctx, Oracle([]), pmod, module_state)
+        interp = _Interp(ctx, Oracle([]), pmod, module_state)
         before = {k: (len(v) if isinstance(v, (list, dict, set)) else None) for k, v in module_state.items()}
         try:
             res = interp.call_function(flat, None, [t], {})
@@ -444,7 +509,7 @@ def _mentioned(t: Obj) -> set[str]:
     if name == "PredicateFunction":
         return {"f"}
     if name == "ColumnInContainer":
-        return {"c"}
+        return set() if _literal_membership(t) is not None else {"c"}
     if name == "LogicalNot":
         return _mentioned(t.attrs["operand"])
     if name in ("LogicalAnd", "LogicalOr"):
